@@ -90,44 +90,6 @@ Proof.
 Qed.
 
 (* ------------------------------------------------------------------ receiver: cancelled completion *)
-Lemma non_idle_fsm_unfold : forall fuel pkt,
-  non_idle_fsm fuel pkt =
-  (fsm_advancement ;;;
-   st <- get_step ;;
-   when (((st =? DS_RECEIVING_FILE_DATA) || (st =? DS_RECV_WITH_CHECK_LIMIT)))
-     (match pkt with
-      | Some (PFileData _ off data) => handle_fd_pdu off data
-      | Some (PEof _ cond ck sz _) => handle_eof_pdu cond ck sz
-      | _ => ret tt
-      end) ;;;
-   b <- step_is DS_WAITING_FOR_METADATA ;;
-   when b (handle_waiting_for_missing_metadata pkt ;;; deferred_lost_segment_handling) ;;;
-   b <- step_is DS_RECV_WITH_CHECK_LIMIT ;;
-   when b check_limit_handling ;;;
-   b <- step_is DS_WAITING_FOR_MISSING_DATA ;;
-   when b
-     ((match pkt with
-       | Some (PFileData _ off data) =>
-           handle_fd_pdu off data ;;;
-           active <- gp p_deferred ;;
-           when active reset_nak_activity_parameters
-       | _ => ret tt
-       end) ;;;
-      deferred_lost_segment_handling) ;;;
-   b <- step_is DS_TRANSFER_COMPLETION ;;
-   when b handle_transfer_completion ;;;
-   b <- step_is DS_SENDING_FINISHED ;;
-   when b (n <- gets d_ready ;;
-           if 0 <? n then ret tt else (prepare_finished_pdu ;;; handle_finished_pdu_sent)) ;;;
-   b <- step_is DS_WAITING_FOR_FINISHED_ACK ;;
-   when b
-     (handle_waiting_for_finished_ack
-        (match fuel with
-         | O => raise E_FUEL
-         | S k => s <- get ;; when (d_state s =? ST_BUSY) (non_idle_fsm k None)
-         end) pkt))%monad.
-Proof. intros [|k] pkt; reflexivity. Qed.
-
 (* the positive-ACK timer that was just started has not expired: nothing happens *)
 Lemma wait_ack_noop : forall again s r tm,
   p_ack_timer (d_p s) = Some tm -> p_rcfg (d_p s) = Some r ->
@@ -141,7 +103,6 @@ Qed.
 
 Arguments Z.eqb : simpl nomatch. Arguments Z.ltb : simpl nomatch.
 Arguments handle_waiting_for_finished_ack : simpl never.
-Arguments non_idle_fsm : simpl never.
 
 Lemma dest_completion_canceled : forall s r a b,
   d_state s = ST_BUSY -> d_step s = DS_TRANSFER_COMPLETION -> d_queue s = [] -> d_ready s = 0 ->
@@ -165,16 +126,143 @@ Proof.
   cbn in Hst, Hstep, Hq, Hrdy, Hdisp, Hr, Htid |- *. subst.
   assert (Hto : timed_out nw (nw, r_ack_ms r) = false)
     by (unfold timed_out; cbn; apply Z.leb_gt; lia).
-  unfold Dest.state_machine. rewrite non_idle_fsm_unfold.
-  destruct (l_ind_fin cfg) eqn:El; destruct (r_disposition r && (dl =? DATA_INCOMPLETE)) eqn:Ed;
-    destruct (h_mode pconf =? ACKED) eqn:Ea; destruct (h_mode pconf =? UNACKED) eqn:Eu; destruct pcl.
+  unfold Dest.state_machine. remember 2%nat as k eqn:Hk. clear Hk. cbn [non_idle_fsm].
+  destruct cfg as [lid lidw i1 i2 i3 ifin lf lck lrem].
+  destruct r as [rid ridw rms rmp rcl rcrc rmode rck rack racl rchl rdisp rimm rnak rnakl].
+  destruct pconf as [hd hm hc hl hs hdst hidw hseq hseqw].
+  cbn in Hack, Hto |- *.
+  destruct ifin; (destruct rdisp; [destruct dl as [|[pd|pd|]|pd]|]);
+    (destruct hm as [|[ph|ph|]|ph]; [| | |destruct pcl|]).
   all: cbn.
   all: unfold handle_transfer_completion, notice_of_completion, prepare_finished_pdu, handle_finished_pdu_sent,
     start_positive_ack_procedure, mode_is, tmode, step_is, get_step, rcfg_or_assert, reset_internal, add_packet,
     conf, gp, setp, set_step, emit, now, when, bind, get, gets, modify, ret, raise.
-  all: repeat (progress (cbn; rewrite ?Ea, ?Eu, ?El, ?Ed)).
-  all: try rewrite (wait_ack_noop _ _ r (nw, r_ack_ms r)) by (first [exact Hto | reflexivity]).
+  all: cbn.
+  all: try rewrite (wait_ack_noop _ _ _ (nw, rack)) by (first [exact Hto | reflexivity]).
   all: eexists; (split; [reflexivity|]); cbn; repeat split; reflexivity.
+Qed.
+
+
+Arguments Z.eqb : simpl never. Arguments Z.ltb : simpl never.
+
+(* ------------------------------------------------------------------ sender *)
+Lemma source_cancel_unretrieved : forall a b s,
+  0 < s_ready s -> cancel_request_s a b s = (s, Err E_UNRETRIEVED).
+Proof.
+  intros a b s H. unfold cancel_request_s, bind, get, raise.
+  apply Z.ltb_lt in H. rewrite H. reflexivity.
+Qed.
+
+Lemma source_cancel_wrong_id : forall a b s,
+  s_ready s <= 0 -> q_tid (s_p s) <> Some (a, b) -> cancel_request_s a b s = (s, Ok false).
+Proof.
+  intros a b s H Ht. unfold cancel_request_s, bind, get, raise, ret.
+  apply Z.ltb_ge in H. rewrite H.
+  destruct (q_tid (s_p s)) as [[x y]|]; [|reflexivity].
+  destruct ((x =? a) && (y =? b)) eqn:E; [|reflexivity].
+  apply andb_true_iff in E. destruct E as [E1 E2]. zb. subst. congruence.
+Qed.
+
+(* the checksum computation never changes the state, and its result depends only on the request,
+   the metadata-only flag, the remote configuration, the segment length and the filestore *)
+Lemma checksum_calculation_state : forall size s, fst (checksum_calculation size s) = s.
+Proof.
+  intros size s. unfold checksum_calculation, put_or_assert, srcfg_or_assert, gq, gets, bind, ret, raise.
+  destruct (s_put s) as [p|]; [|reflexivity].
+  destruct (q_md_only (s_p s)); [reflexivity|].
+  destruct (pr_names p) as [[sn dn]|]; [|reflexivity].
+  destruct (q_rcfg (s_p s)) as [r|]; [|reflexivity].
+  destruct (r_cktype r =? CK_NULL); [reflexivity|].
+  destruct (lookup (e_fs (s_env s)) sn) as [[d|]|]; try reflexivity.
+  destruct (calculate_checksum (r_cktype r) (Some d) size (q_segment_len (s_p s))) as [c|[]]; reflexivity.
+Qed.
+
+Lemma checksum_calculation_frame : forall size s s',
+  s_put s' = s_put s -> q_md_only (s_p s') = q_md_only (s_p s) -> q_rcfg (s_p s') = q_rcfg (s_p s) ->
+  q_segment_len (s_p s') = q_segment_len (s_p s) -> e_fs (s_env s') = e_fs (s_env s) ->
+  snd (checksum_calculation size s') = snd (checksum_calculation size s).
+Proof.
+  intros size s s' H1 H2 H3 H4 H5.
+  unfold checksum_calculation, put_or_assert, srcfg_or_assert, gq, gets, bind, ret, raise.
+  cbv beta. rewrite H1. destruct (s_put s) as [p|]; [|reflexivity].
+  rewrite H2. destruct (q_md_only (s_p s)); [reflexivity|].
+  destruct (pr_names p) as [[sn dn]|]; [|reflexivity].
+  rewrite H3. destruct (q_rcfg (s_p s)) as [r|]; [|reflexivity].
+  rewrite H4, H5.
+  destruct (r_cktype r =? CK_NULL); [reflexivity|].
+  destruct (lookup (e_fs (s_env s)) sn) as [[d|]|]; try reflexivity.
+  destruct (calculate_checksum (r_cktype r) (Some d) size (q_segment_len (s_p s))) as [c|[]]; reflexivity.
+Qed.
+
+Lemma checksum_calculation_eq : forall size s ck,
+  snd (checksum_calculation size s) = Ok ck -> checksum_calculation size s = (s, Ok ck).
+Proof.
+  intros size s ck H. pose proof (checksum_calculation_state size s) as Hs.
+  destruct (checksum_calculation size s) as [s0 r]. cbn in *. subst. reflexivity.
+Qed.
+
+Lemma source_checksum_is_prefix : forall s p sn dn r d size,
+  s_put s = Some p -> pr_names p = Some (sn, dn) -> q_md_only (s_p s) = false -> q_rcfg (s_p s) = Some r ->
+  lookup (fs_s s) sn = Some (File d) -> sn <> [] ->
+  checksum_calculation size s =
+    (s, match Checksum.calculate_checksum (r_cktype r) (Some d) size (q_segment_len (s_p s)) with
+        | Ok c => Ok c
+        | Err Checksum.ChecksumNotImplemented => Err E_CHECKSUM_NOT_IMPL
+        | Err Checksum.FileNotFound => Err E_FILE_NOT_FOUND
+        | Err Checksum.ValueErr => Err E_VALUE
+        | Err Checksum.OutOfFuel => Err E_FUEL
+        end).
+Proof.
+  intros s p sn dn r d size Hp Hn Hmd Hr Hl Hne. unfold fs_s in Hl.
+  unfold checksum_calculation, put_or_assert, srcfg_or_assert, gq, gets, bind, ret, raise.
+  rewrite Hp, Hmd, Hn, Hr, Hl.
+  destruct (r_cktype r =? CK_NULL) eqn:E.
+  - unfold calculate_checksum. rewrite E. reflexivity.
+  - destruct (calculate_checksum (r_cktype r) (Some d) size (q_segment_len (s_p s))) as [c|[]]; reflexivity.
+Qed.
+
+Arguments Z.eqb : simpl nomatch. Arguments Z.ltb : simpl nomatch.
+Arguments checksum_calculation : simpl never.
+
+Lemma source_cancel_ok : forall a b s ck,
+  s_ready s <= 0 -> q_tid (s_p s) = Some (a, b) -> s_state s = ST_BUSY -> q_rcfg (s_p s) <> None ->
+  (q_cond_eof (s_p s) = None \/ q_cond_eof (s_p s) = Some C_NO_ERROR) ->
+  fst (checksum_calculation (q_progress (s_p s)) s) = s ->
+  snd (checksum_calculation (q_progress (s_p s)) s) = Ok ck ->
+  exists s', cancel_request_s a b s = (s', Ok true) /\
+    s_queue s' = s_queue s ++ [PEof (hdr_of (q_conf (s_p s)) TOWARDS_RECEIVER) C_CANCEL_REQUEST ck (q_progress (s_p s)) None] /\
+    (sc_mode (q_conf (s_p s)) = ACKED ->
+       s_step s' = SS_WAITING_FOR_EOF_ACK /\ s_state s' = ST_BUSY /\ q_progress (s_p s') = q_progress (s_p s) /\
+       q_cond_eof (s_p s') = Some C_CANCEL_REQUEST) /\
+    (sc_mode (q_conf (s_p s)) <> ACKED -> s_state s' = ST_IDLE /\ s_step s' = SS_IDLE).
+Proof.
+  intros a b s ck Hrdy Htid Hst Hrc Hce _ Hck.
+  unfold cancel_request_s, bind, get. apply Z.ltb_ge in Hrdy. rewrite Hrdy, Htid, !Z.eqb_refl. cbn [andb].
+  assert (Hn : notice_of_cancellation_s C_CANCEL_REQUEST s =
+               (setq (fun q => q <| q_cond_eof := Some C_CANCEL_REQUEST |>) ;;;
+                pr <- gq q_progress ;; ck <- checksum_calculation pr ;;
+                prepare_eof_pdu ck ;;; handle_eof_sent true ;;; ret true)%monad s).
+  { unfold notice_of_cancellation_s, gq. unfold bind at 1. unfold gets at 1.
+    destruct Hce as [H|H]; rewrite H; reflexivity. }
+  rewrite Hn. clear Hn Hce Hrdy.
+  destruct s as [cfg st step rdy qu q sb pt sc sbits env].
+  destruct q as [tid ckt akt akc ce pr sl fsz ef mdo fn rc cl conf].
+  destruct conf as [csrc csrcw cdst cdstw cseq cseqw cmode clarge ccrc].
+  destruct cfg as [lid lidw ieof i2 i3 ifin lf lck lrem].
+  cbn in Htid, Hst, Hrc, Hck |- *. subst.
+  destruct rc as [r|]; [clear Hrc|congruence].
+  unfold setq, gq, modify, gets, bind. cbn.
+  match goal with |- context [checksum_calculation ?p ?s1] =>
+    assert (Hc1 : checksum_calculation p s1 = (s1, Ok ck))
+      by (apply checksum_calculation_eq; rewrite <- Hck; apply checksum_calculation_frame; reflexivity)
+  end.
+  rewrite Hc1. clear Hc1 Hck.
+  unfold prepare_eof_pdu, handle_eof_sent, start_positive_ack_procedure_s, srcfg_or_assert, stid_or_assert,
+    smode_is, stmode, sadd_packet, semit, snow, sset_step, sreset_internal, setq, gq, when, modify, gets, get, bind, ret, raise.
+  destruct ieof; destruct cmode as [|pm|pm]; cbn;
+    (eexists; split; [reflexivity|]); cbn; (split; [reflexivity|]);
+    (split; intros Hm; [try discriminate Hm | try (exfalso; apply Hm; reflexivity)]);
+    repeat split; reflexivity.
 Qed.
 
 Arguments Z.eqb : simpl never. Arguments Z.ltb : simpl never.
